@@ -51,8 +51,10 @@ def coq_list(items) -> str:
     return '[' + '; '.join(items) + ']'
 
 
-def val_to_coq(v) -> str:
+def val_to_coq(v, with_set=True) -> str:
     import pane
+    if not with_set:
+        return _val_noset(v)
     if v is None:
         return 'VNone'
     if isinstance(v, bool):
@@ -94,6 +96,29 @@ def val_to_coq(v) -> str:
         setf = sorted(getattr(v, '__pane_set__', ()))
         return f'(VInst {coq_str(type(v).__name__)} {coq_list(fields)} {coq_list(coq_str(s) for s in setf)})'
     return f'(VOpaque {coq_str(type(v).__name__)})'
+
+
+def _val_noset(v):
+    """canonical text of a value ignoring the set-field record of instances (Python == ignores it too)"""
+    import pane
+    if isinstance(v, pane.PaneBase):
+        fields = []
+        for f in type(v).__pane_info__.fields:
+            try:
+                fields.append(f'({f.name}={_val_noset(getattr(v, f.name))})')
+            except AttributeError:
+                pass
+        return f'(Inst {type(v).__name__} {" ".join(fields)})'
+    if type(v) in (list, tuple):
+        return f'({type(v).__name__} ' + ' '.join(_val_noset(x) for x in v) + ')'
+    if type(v) is dict:
+        return '(dict ' + ' '.join(f'{_val_noset(k)}:{_val_noset(x)}' for k, x in v.items()) + ')'
+    if type(v) in (set, frozenset):
+        return f'({type(v).__name__} ' + ' '.join(sorted(_val_noset(x) for x in v)) + ')'
+    try:
+        return val_to_coq(v)
+    except Unsupported:
+        return f'{type(v).__name__}:{v!r}'
 
 
 EXN = {'TypeError': 'ETypeError', 'ValueError': 'EValueError', 'KeyError': 'EKeyError', 'OverflowError': 'EOverflowError',
